@@ -348,7 +348,7 @@ func H_C20_stats_failures() {
 		copts = append(copts, WithStatsHandler(c))
 	}
 	conn := newZZConn()
-	if outcome != 2 {
+	if outcome < 2 {
 		conn.failWrite = errors.New("transport write failed")
 	}
 	cc := NewClientConn(conn, "cli", "srv", copts...)
@@ -361,6 +361,24 @@ func H_C20_stats_failures() {
 		case 1:
 			out := new(testproto.Msg)
 			callErr = cc.Invoke(context.Background(), "/"+zzSvcName+"/Unary", &testproto.Msg{Value: 3}, out)
+		case 3:
+			// the caller cancels while a response it never received sits in the stream's read loop
+			ctx, cancel := context.WithCancel(context.Background())
+			cs, err := cc.NewStream(ctx, &grpc.StreamDesc{ClientStreams: true, ServerStreams: true}, "/"+zzSvcName+"/BidiStream")
+			if err != nil {
+				callErr = err
+			} else {
+				conn.in <- &Rpc{Id: 1, Header: zzRespHdr(), Body: &goatorepo.Body{Data: zzEnc(5)}}
+				cs.Header() // the read loop has taken the envelope
+				cancel()
+				out := new(testproto.Msg)
+				for {
+					if callErr = cs.RecvMsg(out); callErr != nil {
+						break
+					}
+				}
+			}
+			cancel()
 		default:
 			cs, err := cc.NewStream(context.Background(), &grpc.StreamDesc{ClientStreams: true, ServerStreams: true}, "/"+zzSvcName+"/BidiStream")
 			if err != nil {
